@@ -23,7 +23,7 @@ COMPONENTS = {
 def gen_case(tp, tier):
     feat = {'tempo_clocks': True, 'init_beats': tp.draw(2) == 0,
             'odd_deltas': tp.draw(2) == 0, 'app': tp.draw(5) == 0,
-            'embed': True}
+            'embed': True, 'inf_wait': True}
     prog = rprog.gen(tp, feat, tier)
     ff = C.gen_knobs(tp, fault_free_pm=1000)
     k1 = C.gen_knobs(tp, fault_free_pm=0)
@@ -171,6 +171,8 @@ def run_case(case, tape, ctx):
     bad = [s for s in subs if s['outcome'] != 'ok']
     if bad:
         return W.result(viol, agg, outcome=bad[0]['outcome'])
+    if W.process_raised(viol, 'C05-4', nrt):
+        return W.result(viol, agg)
     for name, res in zip(names, subs):
         check_world(name, res, model, viol, prog, stats)
         if res['thread_exc']:
